@@ -551,8 +551,19 @@ impl Axecutor {
         data: Vec<u8>,
         name: Option<String>,
     ) -> Result<(), AxError> {
+        // The new area must not wrap around the end of the address space
+        if start.checked_add(data.len() as u64).is_none() {
+            return Err(AxError::from(format!(
+                "cannot create memory area {} with start={:#x}, length={:#x}: area would wrap around the end of the address space",
+                name.unwrap_or_else(||"<unnamed>".to_string()), start, data.len()
+            )));
+        }
+
         for area in &self.state.memory {
-            if start >= area.start && start < area.start + area.length {
+            // Overlap: the new start lies within an existing area, or an existing area starts within the new one
+            if (start >= area.start && start - area.start < area.length)
+                || (area.start >= start && area.start - start < data.len() as u64)
+            {
                 let overlap_name = area
                     .name
                     .to_owned()
